@@ -2,11 +2,11 @@
 # usage: tools/try_patch.sh <patch.diff> <tier> <prop> [<prop> ...]
 # Copies /repo's working tree (without .git) to a scratch dir outside /repo and /verif,
 # applies the patch there, runs the given checks with VERIF_REPO pointing at the copy,
-# and removes the copy. Evidence files in /verif/evidence are preserved (restored after).
+# and removes the copy. VERIF_BASE=<dir> copies that tree instead of /repo (e.g. a scratch copy with fixes). Evidence files in /verif/evidence are preserved (restored after).
 set -u
 PATCH=$(readlink -f "$1"); TIER=$2; shift 2
 D=$(mktemp -d /tmp/abtem-mut-XXXXXX)
-rsync -a --exclude .git --exclude '*.pyc' --exclude __pycache__ /repo/ "$D/"
+rsync -a --exclude .git --exclude '*.pyc' --exclude __pycache__ "${VERIF_BASE:-/repo}/" "$D/"
 ( cd "$D" && patch -p1 -s < "$PATCH" ) || { echo "PATCH FAILED"; rm -rf "$D"; exit 3; }
 cd "$(dirname "$0")/.."
 for P in "$@"; do
